@@ -25,8 +25,8 @@ Min(a, b) == IF a <= b THEN a ELSE b
 (* MC_Group checks with TLC that they agree on an initial segment.          *)
 
 IsPrimeDef(n) == n > 1 /\ \A d \in 2..(n - 1) : n % d # 0
-Isqrt(n) == CHOOSE r \in 0..32768 : r * r <= n /\ (r + 1) * (r + 1) > n
-IsPrime(n) == n > 1 /\ \A d \in 2..Isqrt(n) : n % d # 0
+\* trial division up to the square root; every number the spec computes with is below 46341 (products stay below 2^31)
+IsPrime(n) == n > 1 /\ n < 46341 /\ \A d \in 2..Min(n - 1, 215) : d * d > n \/ n % d # 0
 
 \* number of binary digits (0 has none)
 Bits(n) == CHOOSE b \in 0..30 : n < 2^b /\ (b = 0 \/ n >= 2^(b - 1))
